@@ -518,6 +518,23 @@ def use_solution(sol, work, idx, k):
             os.remove(fn + ext)
 
 
+ACCENTED = {'T': 'tâche', 'W': 'opérateur', 'C': 'équipe', 'S': 'sélection', 'K': 'règle', 'B': 'dépôt', 'I': 'indice', 'O': 'but'}
+
+
+def accented_naming(kind, i):
+    """free-text names outside ASCII (Latin-1 letters): what a user who does not write English calls his elements"""
+    return '%s%d' % (ACCENTED.get(kind, kind), i)
+
+
+def back_to_canonical(lines):
+    out = []
+    for l in lines:
+        for k, w in ACCENTED.items():
+            l = l.replace(w, k)
+        out.append(l)
+    return out
+
+
 def observe(args):
     idx, prog, seed, tier, extra, work = args
     import z3
@@ -526,7 +543,10 @@ def observe(args):
     out = {'idx': idx, 'error': None, 'sols': [], 'status': None}
     try:
         r = random.Random(seed * 104729 + idx)
-        im = impl.Impl()
+        # every fourth export case: element names with accented letters (reports are compared under the canonical names)
+        accented = extra == 'export' and idx % 4 == 1
+        out['naming'] = 'accented' if accented else 'default'
+        im = impl.Impl(naming=accented_naming) if accented else impl.Impl()
         res = im.run(prog)
         if res[0] != 'ok' or im.pb is None:
             out['status'] = 'rejected'
@@ -567,6 +587,9 @@ def observe(args):
                     vals_i[tgt.decl().name()] = v.as_long()
                 elif z3.is_true(v) or z3.is_false(v):
                     vals_b[tgt.decl().name()] = bool(z3.is_true(v))
+            if accented:
+                vals_i = {back_to_canonical([k_])[0]: v_ for k_, v_ in vals_i.items()}
+                vals_b = {back_to_canonical([k_])[0]: v_ for k_, v_ in vals_b.items()}
             rec = {'report': py_report(sol), 'ivals': vals_i, 'bvals': vals_b,
                    'clauses': clause_checks(prog, sol, delta_us, t0) if extra is None else []}
             before = list(rec['report'])
@@ -586,6 +609,8 @@ def observe(args):
             if after != before:
                 d = [x for x in before if x not in after][:1] + [x for x in after if x not in before][:1]
                 rec['clauses'].append(('solution_changed_by_its_own_exports', ' -> '.join(d)[:200]))
+            if accented:
+                rec['report'] = back_to_canonical(rec['report'])
             out['sols'].append(rec)
             nsol += 1
             if nsol >= 3 or r.random() < 0.4:
